@@ -114,7 +114,7 @@ class RequestHandler:
                 except DecodeError as err:
                     # we have to decode 'origin' here
                     # use latin-1, as utf-8 or ascii may lead to encoding errors
-                    msg = err.raw_msg.decode('latin-1').split(' ', 3) + [
+                    msg = err.raw_msg.strip().decode('latin-1').split(' ', 3) + [
                         None
                     ]  # make sure len(msg) > 1
                     result = (
@@ -137,7 +137,7 @@ class RequestHandler:
                     try:
                         if msg[0] == HELPREQUEST:
                             self.handle_help()
-                            result = (HELPREPLY, None, None)
+                            result = (HELPREPLY, msg[1], None)
                         else:
                             result = serverobj.dispatcher.handle_request(self,
                                                                          msg)
